@@ -20,7 +20,10 @@ EXPLANATION = (
     "(shared with C13). R-C19-classify: the classifier of trainable keys into node/edge rows in "
     "View._filter_trainables is total over the keys make_trainable accepts (any node or edge column). "
     "R-C19-pair: externals/external_inds are stored, filtered and popped together with one mask; "
-    "recordings are de-duplicated on (rec_index, state)."
+    "recordings are de-duplicated on (rec_index, state). R-C19-keyclass (shared with C08/C11): whether a "
+    "registry key is a synaptic (edge) or a compartment (node) quantity is decided with the BASE module's "
+    "name lists, not with a view's filtered ones. R-C19-simulates (shared with C09): every synapse reads "
+    "from and delivers to the compartments its row of .edges names, with the postsynaptic geometry."
 )
 ASSUMPTIONS = ["user-defined channels follow the built-in naming convention", "'integrate simulates the displayed model' as a whole is not decided"]
 
